@@ -17,7 +17,17 @@ Enumerated (complete product, simplest first):
   target state  reached by a short history on a fresh Session(autoflush=False):
       empty; identity loaded; loaded with its collection; expired; modified
       (pending change on x); parent and child loaded;
-  load in {True, False};  mappings one-to-many and many-to-many (U1 / U2).
+  load in {True, False};  mappings one-to-many and many-to-many (U1 / U2);
+  truth-value worlds  the one-to-many mapping again with classes P and C that
+      define __len__ (quick + thorough) / __bool__ (thorough) computed from the
+      column x (falsy iff x is unloaded, None or 0), rows p1 (truthy) / p2
+      (falsy) with a truthy and a falsy child each, and source graphs in which
+      truthy and falsy objects occur as root, as many-to-one target (transient
+      with an existing / a new key, detached-loaded) and as collection member:
+      transient child -> parent, detached child c1..c4 with the many-to-one
+      loaded / not loaded (the load=False route), transient parent with
+      falsy / truthy members, detached falsy parent p2 with partial expiry.
+      The same oracle decides: objects go by identity, never by truth value.
 
 Oracle (relations between source, result and the target's state before the
 merge; SQL counted with before_cursor_execute):
@@ -60,6 +70,14 @@ Mutations caught (private copy, VF_REPO=/tmp/wt-orm3):
     "load=False left Session.dirty non-empty"
  M9 relationships.py merge (scalar branch): a None many-to-one is not copied ->
     "C.p is None on the source, <P p1> on the result"
+ C45-b (seeded) relationships.py merge (scalar branch) tests ``if current:``
+    instead of ``is not None`` -> "copy o2m/__len__: merge(detached c2 (p
+    loaded), load=True/False) ... -> C.p is set on the source, None on the result"
+ M10 relationships.py merge (collection branch) skips falsy members ->
+    "P.cs has 0 members on the result, 1 on the source" (truth-value worlds only)
+ M11 session.py _merge: ``if not merged:`` instead of ``if merged is None:``
+    (a held / loaded falsy instance is replaced by a new one) -> "identity
+    o2m/__len__: ... P 2: result is not the Session's persistent instance for the row"
  (not observable, equivalent here: load=False using impl.set / dropping the
  final _commit_all - the other one masks it)
 """
@@ -72,6 +90,7 @@ from sqlalchemy.orm import Session
 
 from ..worlds.ormworld3 import SqlLog
 from ..worlds.ormworld3 import world
+from ..worlds.ormworld3 import World
 
 ID = "C45"
 LEVEL = "model_checking"
@@ -82,20 +101,25 @@ META = dict(
     level_text="All source graphs of a parent with up to two cascaded children in the states transient (with an existing row's "
     "key, with a fresh key, without key), pending elsewhere, detached-loaded with every subset of {x, y, cs} expired and "
     "optional post-detach modification, are merged into every target state (empty, loaded, loaded+collection, expired, "
-    "modified, parent+child loaded) with load=True and load=False, for a one-to-many and a many-to-many mapping. Each "
+    "modified, parent+child loaded) with load=True and load=False, for a one-to-many and a many-to-many mapping, and "
+    "again for a one-to-many mapping whose classes define __len__ / __bool__ from a column value so that truthy and falsy "
+    "instances occur as merge root, many-to-one target and collection member (the library must go by identity). Each "
     "case runs on a fresh SQLite database and fresh Sessions; the result is checked for identity, attribute equality on "
     "loaded source attributes, untouched unloaded ones, idempotence of a second merge (no DML, same histories, same "
     "Session.new/dirty), the load=False contract and the rows after flush.",
     level_note="Trusted: the ~80-line relational oracle in this file (no prediction of internals: it compares source, result "
-    "and a snapshot of the target before the merge). Scope: single-level cascade (parent -> children -> backref), integer "
+    "and a snapshot of the target before the merge); the truth functions of the truth-value worlds read __dict__ only "
+    "(never a lazy load). Scope: single-level cascade (parent -> children -> backref), integer "
     "columns, no version_id_col, no composite / synonym properties.",
     rule="case = (mapping, target state, source graph, load); non-trivial = the source carries at least one loaded attribute "
     "that differs from what the target held or would load (the merge has to copy something) or a cascaded child; "
     "outcomes = distinct (result kind, copied attributes, error class)",
     assumptions=["Session(autoflush=False) target", "sources are not concurrently used by another thread"],
     bounds=dict(
-        quick="2 mappings x 6 target states x ~190 source graphs (parent- and child-rooted) x load True/False",
-        thorough="same plus collections of two children in both orders and y in {unset, same, different}",
+        quick="2 mappings x 6 target states x ~190 source graphs (parent- and child-rooted) x load True/False; plus "
+        "truth-value world (__len__ from x) x 6 target states x 54 source graphs with truthy / falsy objects x load True/False",
+        thorough="same plus collections of two children in both orders and y in {unset, same, different}; truth-value worlds "
+        "__len__ and __bool__ x 6 target states x 141 source graphs x load True/False",
     ),
 )
 
@@ -108,10 +132,84 @@ TARGETS = ("empty", "loaded", "loaded_cs", "expired", "modified", "with_child")
 UNSET = "unset"
 
 
-def rows_sql(kind):
+def rows_sql(kind, truth=None):
+    if truth:
+        return TRUTH_ROWS_SQL
     if kind == "m2m":
         return ROWS_SQL.format(fk="", one="", null="", assoc=";\ninsert into pc (p_id, c_id) values (1, 11)")
     return ROWS_SQL.format(fk=", p_id", one=", 1", null=", NULL", assoc="")
+
+
+# ---- truth-value worlds: the mapped classes define __bool__ / __len__ from the
+# column x (falsy iff x is not loaded, None or 0).  Rows: every combination of
+# truthy / falsy child under truthy / falsy parent.
+TRUTH_MODES = ("len", "bool")
+TRUTH_ROWS_SQL = (
+    "insert into p (id, name, x, y) values (1, 'p1', 1, 1);\n"
+    "insert into p (id, name, x, y) values (2, 'p2', 0, 1);\n"
+    "insert into c (id, name, x, y, p_id) values (11, 'c1', 1, 1, 1);\n"
+    "insert into c (id, name, x, y, p_id) values (12, 'c2', 0, 1, 2);\n"
+    "insert into c (id, name, x, y, p_id) values (13, 'c3', 1, 1, 2);\n"
+    "insert into c (id, name, x, y, p_id) values (14, 'c4', 0, 1, 1)"
+)
+_TRUTH_WORLDS = {}
+
+
+def _x_of(o):
+    v = o.__dict__.get("x")  # never a lazy load: an unloaded x counts as 0
+    return v if isinstance(v, int) and v > 0 else 0
+
+
+def truth_world(mode):
+    """U1 one-to-many (list, back_populates) whose classes P and C have a truth
+    value: mode 'len' -> __len__ returns x (or 0), mode 'bool' -> __bool__
+    returns x > 0.  A private World instance (not the shared cached one)."""
+    w = _TRUTH_WORLDS.get(mode)
+    if w is None:
+        w = World("o2m", "list", "bp")
+        w.key = w.key + ("truth-" + mode,)
+        for cls in (w.P, w.C):
+            if mode == "len":
+                cls.__len__ = _x_of
+            else:
+                cls.__bool__ = lambda self: _x_of(self) > 0
+        _TRUTH_WORLDS[mode] = w
+    return w
+
+
+def truth_sources(tier):
+    """source graphs for the truth-value worlds (rows TRUTH_ROWS_SQL), simplest
+    first; truthy and falsy objects occur as root, as scalar many-to-one
+    target and as collection member, transient and detached-loaded"""
+    out = []
+    # transient child -> many-to-one (scalar branch of the cascade)
+    pars = (UNSET, "none", "p1t", "p1t0", "p1d", "p2d", "pnew", "pnew0")
+    for k in ("ct_pk", "ct_nopk"):
+        for x in (UNSET, 5):
+            for par in pars:
+                out.append(dict(k=k, x=x, par=par))
+    # detached loaded child c1..c4 with its many-to-one unloaded / loaded
+    for cid in (11, 12, 13, 14):
+        for par in (UNSET, "loaded"):
+            for x in ("keep", 5) if tier == "thorough" else ("keep",):
+                out.append(dict(k="cd", cid=cid, par=par, x=x))
+    # transient parent with falsy / truthy collection members
+    child_lists = [["c1t0"], ["cn0"], ["c2d"], ["c1d", "cn0"]]
+    if tier == "thorough":
+        child_lists += [UNSET, [], ["cn0", "c1d"], ["c1t0", "cn"], ["c2d", "c1d"]]
+    for k in ("t_pk",) if tier == "quick" else ("t_pk", "t_nopk", "t_newpk"):
+        for x in (0, 5) if tier == "quick" else (UNSET, 0, 5):
+            for cs in child_lists:
+                out.append(dict(k=k, x=x, y=UNSET, cs=cs))
+    # detached falsy parent p2 with its collection [c2 (falsy), c3 (truthy)]
+    attrs = ("x", "cs") if tier == "quick" else ("x", "y", "cs")
+    for n in range(len(attrs) + 1):
+        for exp in itertools.combinations(attrs, n):
+            for cs in ("keep", "append_cn0"):
+                if cs != "keep" and "cs" in exp:
+                    continue
+                out.append(dict(k="d", pid=2, exp=list(exp), x="keep", cs=cs))
+    return out
 
 
 def sources(tier):
@@ -147,11 +245,13 @@ class Case:
     pass
 
 
-def build(kind, target, spec):
+def build(kind, target, spec, truth=None):
     cs = Case()
-    w = cs.w = world(kind, "list", "bp")
+    w = cs.w = truth_world(truth) if truth else world(kind, "list", "bp")
     cs.kind = kind
-    cs.engine = w.memory_engine(rows_sql(kind))
+    cs.falsy = 0
+    cs.db = TRUTH_DB if truth else BASE_DB
+    cs.engine = w.memory_engine(rows_sql(kind, truth))
     cs.log = _log(cs.engine)
     P, C = w.P, w.C
     # ---- the source graph (through a second Session B where it has to be loaded)
@@ -163,8 +263,16 @@ def build(kind, target, spec):
             c = B.get(C, 11)
             c.x, c.y, c.name  # loaded
             return c
+        if cspec == "c2d":  # (truth worlds) falsy row c2, child of p2
+            c = B.get(C, 12)
+            c.x, c.y, c.name
+            return c
         if cspec == "c1t":
             return C(id=11, name="c1", x=5)
+        if cspec == "c1t0":
+            return C(id=11, name="c1", x=0)
+        if cspec == "cn0":
+            return C(name="cn", x=0)
         return C(name="cn", x=5)
 
     if k.startswith("ct"):
@@ -180,12 +288,21 @@ def build(kind, target, spec):
             src.p = P(id=1, name="p1", x=5)
         elif par == "pnew":
             src.p = P(id=3, name="pnew", x=5)
-        elif par == "p1d":
-            pd = B.get(P, 1)
+        elif par == "p1t0":
+            src.p = P(id=1, name="p1", x=0)
+        elif par == "pnew0":
+            src.p = P(id=3, name="pnew", x=0)
+        elif par in ("p1d", "p2d"):
+            pd = B.get(P, int(par[1]))
             pd.x, pd.y, pd.name
             src.p = pd
+    elif k == "cd":
+        src = B.get(C, spec["cid"])
+        src.name, src.x, src.y
+        if spec["par"] == "loaded":
+            src.p.name  # load the many-to-one and the parent's columns
     elif k == "d":
-        src = B.get(P, 1)
+        src = B.get(P, spec.get("pid", 1))
         src.cs  # load the collection (and the child)
         for ch in src.cs:
             ch.name
@@ -208,11 +325,15 @@ def build(kind, target, spec):
     else:
         B.expunge_all()
         B.close()
+        if k == "cd" and spec["x"] == 5:
+            src.x = 5
         if k == "d":
             if spec["x"] == 5:
                 src.x = 5
             if spec["cs"] == "append_cn":
                 src.cs.append(C(name="cn", x=5))
+            elif spec["cs"] == "append_cn0":
+                src.cs.append(C(name="cn", x=0))
     cs.src = src
     # ---- the target Session
     A = cs.A = Session(cs.engine, autoflush=False)
@@ -246,6 +367,20 @@ DB = {
 }
 DB_CHILDREN = {1: [11]}
 DB_PARENT = {11: 1, 12: None}
+BASE_DB = (DB, DB_CHILDREN, DB_PARENT)
+TRUTH_DB = (
+    {
+        "P": {1: dict(name="p1", x=1, y=1), 2: dict(name="p2", x=0, y=1)},
+        "C": {
+            11: dict(name="c1", x=1, y=1),
+            12: dict(name="c2", x=0, y=1),
+            13: dict(name="c3", x=1, y=1),
+            14: dict(name="c4", x=0, y=1),
+        },
+    },
+    {1: [11, 14], 2: [12, 13]},
+    {11: 1, 12: 2, 13: 2, 14: 1},
+)
 COLS = ("name", "x", "y")
 
 
@@ -305,9 +440,10 @@ def source_graph(src):
     return objs
 
 
-def run_case(kind, target, spec, load, rec=None):
+def run_case(kind, target, spec, load, rec=None, truth=None):
     """returns list of (category, problem) - empty when the property holds"""
-    cs = build(kind, target, spec)
+    cs = build(kind, target, spec, truth)
+    DB, DB_CHILDREN, DB_PARENT = cs.db
     A, src, log = cs.A, cs.src, cs.log
     problems = []
     try:
@@ -315,6 +451,7 @@ def run_case(kind, target, spec, load, rec=None):
         pre_new, pre_dirty = set(map(id, A.new)), set(map(id, A.dirty))
         pre_by_key = {(cls_name(o), sa_inspect(o).identity[0]): o for o in A.identity_map.values()}
         graph = source_graph(src)
+        cs.falsy = sum(1 for o in graph if not o) if truth else 0
         misuse = any(sa_inspect(o).key is None or (sa_inspect(o).modified and (cls_name(o), sa_inspect(o).identity[0]) not in pre_by_key) for o in graph)
         mark = log.mark()
         try:
@@ -443,7 +580,9 @@ def run_case(kind, target, spec, load, rec=None):
         if not load:
             if stmts:
                 problems.append(("noload", "load=False emitted SQL: %s" % stmts[0][0].split("\n")[0][:60]))
-            if list(A.dirty):
+            # (objects that are not results of this merge and carried a pending
+            # change before it keep it)
+            if [o for o in A.dirty if id(o) not in pre_dirty or any(o is m for m in merged_objs)]:
                 problems.append(("noload", "load=False left Session.dirty non-empty"))
             if any(sa_inspect(o).modified for o in merged_objs):
                 problems.append(("noload", "load=False flagged the result as modified"))
@@ -528,41 +667,58 @@ def run_case(kind, target, spec, load, rec=None):
 def spec_text(spec):
     if spec["k"].startswith("ct"):
         return "transient C(%s) x=%s p=%s" % ("id=11" if spec["k"] == "ct_pk" else "", spec["x"], spec["par"])
+    if spec["k"] == "cd":
+        return "detached c%d (p %s%s)" % (spec["cid"] - 10, "loaded" if spec["par"] == "loaded" else "not loaded", ", x=5 after detach" if spec["x"] == 5 else "")
     if spec["k"] == "d":
-        return "detached p1 (expired %s%s%s)" % (spec["exp"] or "nothing", ", x=5 after detach" if spec["x"] == 5 else "", ", new child appended" if spec["cs"] != "keep" else "")
+        return "detached p%d (expired %s%s%s)" % (
+            spec.get("pid", 1),
+            spec["exp"] or "nothing",
+            ", x=5 after detach" if spec["x"] == 5 else "",
+            ", new child appended" if spec["cs"] == "append_cn" else ", new falsy child appended" if spec["cs"] == "append_cn0" else "",
+        )
     who = {"t_pk": "transient P(id=1)", "t_nopk": "transient P()", "t_newpk": "transient P(id=3)", "p_other": "P(id=3) pending in another Session"}[spec["k"]]
     return "%s x=%s y=%s cs=%s" % (who, spec["x"], spec["y"], spec["cs"])
 
 
 def shards(tier, seed):
-    return [[kind, t, load] for kind in ("o2m", "m2m") for t in TARGETS for load in (True, False)]
+    out = [[kind, t, load] for kind in ("o2m", "m2m") for t in TARGETS for load in (True, False)]
+    modes = TRUTH_MODES if tier == "thorough" else TRUTH_MODES[:1]
+    out += [["o2m", t, load, mode] for mode in modes for t in TARGETS for load in (True, False)]
+    return out
 
 
 def run_shard(shard, tier, rec):
-    kind, target, load = shard
+    kind, target, load = shard[:3]
+    truth = shard[3] if len(shard) > 3 else None
+    label = kind if not truth else "%s/__%s__" % (kind, truth)
     gc.disable()
     try:
-        rec.state(("target", kind, target))
-        for spec in sources(tier):
+        rec.state(("target", label, target))
+        for spec in truth_sources(tier) if truth else sources(tier):
             if kind == "m2m" and spec["k"].startswith("ct"):
                 continue
             rec.transition()
             rec.trace()
-            problems = run_case(kind, target, spec, load, rec)
+            problems = run_case(kind, target, spec, load, rec, truth)
             cs = run_case.last
-            rec.case((kind, target, repr(spec), load), nontrivial=cs.nontrivial)
-            rec.state(("case", kind, target, repr(spec)))
+            rec.case((label, target, repr(spec), load), nontrivial=cs.nontrivial)
+            rec.state(("case", label, target, repr(spec)))
+            if truth:
+                rec.count("truth_world_cases_with_falsy_source_object" if cs.falsy else "truth_world_cases_all_truthy")
             if problems:
                 cat, problem = problems[0]
-                sig = "%s %s: merge(%s, load=%s) into a Session with p1 %s -> %s" % (cat, kind, spec_text(spec), load, target, problem)
-                rec.violation(sig, "; ".join(p for _, p in problems), dict(kind=kind, target=target, spec=spec, load=load), kind=(cat, problem.split(":")[0][:40], spec["k"]))
+                sig = "%s %s: merge(%s, load=%s) into a Session with p1 %s -> %s" % (cat, label, spec_text(spec), load, target, problem)
+                case = dict(kind=kind, target=target, spec=spec, load=load)
+                if truth:
+                    case["truth"] = truth
+                rec.violation(sig, "; ".join(p for _, p in problems), case, kind=(cat, problem.split(":")[0][:40], spec["k"]))
             elif cs.nontrivial:
-                rec.sample(dict(mapping=kind, target=target, source=spec_text(spec), load=load), limit=2)
+                rec.sample(dict(mapping=label, target=target, source=spec_text(spec), load=load), limit=2)
     finally:
         gc.enable()
         gc.collect()
 
 
 def replay(case):
-    problems = run_case(case["kind"], case["target"], case["spec"], case["load"])
+    problems = run_case(case["kind"], case["target"], case["spec"], case["load"], truth=case.get("truth"))
     return [("%s %s" % (c, p), p) for c, p in problems]
